@@ -4,8 +4,6 @@
 From SplVerif Require Import Lib.Base Tlv.Model Tlv.Spec Tlv.Walk Tlv.Parse Tlv.Ops Tlv.Refine Tlv.Corollaries.
 Local Open Scope N_scope.
 
-Definition run (buf : list byte) (ops : list op) : list byte := fold_left (fun b o => fst (step b o)) ops buf.
-
 (** the same history with every failed operation skipped *)
 Fixpoint run_dropping_failed (buf : list byte) (ops : list op) : list byte :=
   match ops with
@@ -18,14 +16,14 @@ Fixpoint run_dropping_failed (buf : list byte) (ops : list op) : list byte :=
 
 Theorem failed_ops_are_noops : forall ops n es,
   fits n es -> Forall wf_op ops -> Forall (fun o => is_pack_var o = false) ops ->
-  run (render n es) ops = run_dropping_failed (render n es) ops /\
-  exists es', run (render n es) ops = render n es' /\ fits n es'.
+  run ops (render n es) = run_dropping_failed (render n es) ops /\
+  exists es', run ops (render n es) = render n es' /\ fits n es'.
 Proof.
   induction ops as [|o ops IH]; intros n es Hfit Hwf Hnp.
-  - cbn [run fold_left run_dropping_failed]. split; [reflexivity|]. now exists es.
+  - unfold run. cbn [fold_left run_dropping_failed]. split; [reflexivity|]. now exists es.
   - inversion Hwf as [|? ? Ho Hwf']; subst. inversion Hnp as [|? ? Hp Hnp']; subst.
     destruct (step_refines n es o Hfit Ho) as (out' & Hs & Heq & Hf1).
-    cbn [run fold_left run_dropping_failed]. fold (run (fst (step (render n es) o)) ops).
+    unfold run. cbn [fold_left run_dropping_failed]. fold (run ops (fst (step (render n es) o))).
     destruct (snd (step (render n es) o)) as [x|e|] eqn:Eo.
     + rewrite Hs. cbn [fst]. apply IH; assumption.
     + rewrite (failed_op_unchanged n es o e Hfit Ho Hp Eo). apply IH; assumption.
@@ -36,7 +34,7 @@ Qed.
 Corollary all_failed_identity : forall ops n es,
   fits n es -> Forall wf_op ops -> Forall (fun o => is_pack_var o = false) ops ->
   (forall o, In o ops -> exists e, snd (step (render n es) o) = Err e) ->
-  run (render n es) ops = render n es.
+  run ops (render n es) = render n es.
 Proof.
   intros ops n es Hfit Hwf Hnp Hall.
   destruct (failed_ops_are_noops ops n es Hfit Hwf Hnp) as [-> _].
